@@ -27,6 +27,19 @@ pub fn resolve_res(
         report,
         ast_res.expr.span())?;
 
+    // While symbol values are still guesses, a value outside
+    // the supported range is not an error yet
+    if !ctx.is_last_iteration
+    {
+        if let expr::Value::Integer(ref bigint) = value
+        {
+            if bigint.maybe_into::<u32>().is_none()
+            {
+                return Ok(asm::ResolutionState::Unresolved);
+            }
+        }
+    }
+
     let value = {
         match value
         {
